@@ -48,7 +48,7 @@ ASSUMPTIONS = [
     "rhf/uhf trials (whose routines conjugate the coefficients consistently) also with a complex phase convention of their orbitals - the same state; ghf and noci trials with real coefficients only: those classes mix mo_coeff.T (ghf overlap and Green's function, noci Green's function) with mo_coeff.T.conj() (ghf half-rotated integrals, noci overlap), so complex coefficients are not a usable input of theirs as the library stands",
     "the step model subtracts and compensates the mean-field values tr(L rdm1) analytically, so it is exact to O(dt^2) for complex values as well; generated 'arbitrary' rdm1 are Hermitian, the trial's own rdm1 is whatever the library computes",
     "start walkers have |overlap| bounded below (generator precondition)",
-    "the hand-coded CISD/UCISD trials are given only as routines: their state is the bra their own overlap routine defines, fitted on random walkers as a bilinear form in the alpha and beta minors and verified on a second sample (residual <= 1e-9); force bias, local energy and the step are then compared with that state like for any other trial; CISD block energies at 2e-6 (the library contracts one term in single precision on purpose)",
+    "the hand-coded CISD/UCISD trials are given only as routines: their state is the bra their own overlap routine defines, fitted on random walkers as a bilinear form in the alpha and beta minors and verified on a second sample (residual <= 1e-9); force bias, local energy and the step are then compared with that state like for any other trial; CISD/UCISD block energies at 2e-6 (the library contracts one term in single precision on purpose)",
 ]
 COMPONENTS = {
     "real": ["ad_afqmc.propagation.propagator_restricted/unrestricted: propagate, _apply_trotprop(_det), _build_propagation_intermediates, QR, local SR",
@@ -443,8 +443,8 @@ def _exec_sampler(cfg, ctx):
         return {"digest": None, "nontrivial": False}
     e_model = float(np.sum(np.array(be_l) * np.array(bw_l)) / np.sum(bw_l))
     e_c = float(np.asarray(e_code))
-    # the hand-coded CISD energy contracts its doubles-doubles term in single precision on purpose (complex64 / float32)
-    e_tol = 2e-6 if cfg["trial"] == "cisd" else 1e-8
+    # the hand-coded CISD / UCISD energies contract their doubles-doubles term in single precision on purpose (complex64 / float32)
+    e_tol = 2e-6 if cfg["trial"] in ("cisd", "ucisd") else 1e-8
     if not abs(e_c - e_model) <= e_tol * max(1.0, abs(e_model)):
         _bad(ctx, "phaseless.sampler_energy_differs_from_composed_model_steps", site, cfg, sampler=e_c, model=e_model, block_energies_model=be_l)
     wc = np.asarray(pd_code["weights"])
